@@ -940,6 +940,14 @@ class Interp:
                 return self.copyval(self.ev(args[0], env))
             if not args:
                 return self.make_value("tmp", ty, symbolic=False)
+        if ty.get("c") == "record" and ty.get("std") == "vector":
+            real = [a for a in args if not (isinstance(a, dict) and a.get("k") == "defaultarg")]
+            if len(real) == 1 and len(args) == 2 and ((real[0].get("t") or {}).get("c") == "int"):
+                # vector(count): a fresh list of `count` value-initialised elements
+                cont = self.make_value("tmpvec", ty)
+                if isinstance(cont, Container):
+                    cont.size = self.ev(real[0], env)
+                    return cont
         if ty.get("c") == "record" and ty.get("std") == "vector" and len(args) <= 1:
             if args:
                 return self.copyval(self.ev(args[0], env))
